@@ -706,6 +706,30 @@ def oracle_c29(ctx, budget_s):
                 _c29_judge(ctx, c, r)
                 if ctx.failures:
                     return
+    # MinimumTrials above the crossing size with a derived factor listed first in the design (the level
+    # multiplication must still reach the first basic factor)
+    col, siz = O._sf(0, ["r", "g"]), O._sf(1, ["big", "small"])
+    eq = [0] * 9
+    eq[4] = eq[8] = 1
+    mt = {"id": 2, "name": "f2", "window": {"deps": [0, 1], "width": 1, "stride": 1, "start": None, "kind": "within"},
+          "levels": [{"name": "same", "w": 1, "table": eq}, {"name": "diff", "w": 1, "table": [1 - x for x in eq]}]}
+    sh3 = O._sf(0, ["a", "b", "c"])
+    min_cases = []
+    for F, design, crossing, n in (([col, siz, mt], [2, 0, 1], [0, 1], 6), ([col, siz, mt], [2, 0, 1], [0, 1], 8),
+                                   ([col, siz, mt], [0, 1, 2], [0, 1], 6), ([sh3, O._transition(1, 0, 3)], [1, 0], [0], 7),
+                                   ([sh3, O._transition(1, 0, 3)], [1, 0], [0], 6)):
+        dsc = {"factors": F, "block": {"k": "cross", "design": design, "crossing": crossing, "rcc": True,
+               "cs": [{"k": "MinimumTrials", "n": n}]}}
+        c = O.Case(ctx, dsc)
+        if c.build():
+            c.regs = OD.regions(dsc, c.geo)
+            min_cases.append(c)
+    res = O.synth_sequence([{"desc": c.desc, "n": 3, "strategy": "SMGen"} for c in min_cases], timeout=90)
+    ctx.count("C29.minimum-trials-derived-first")
+    for c, r in (zip(min_cases, res) if res is not None else []):
+        _c29_judge(ctx, c, r)
+        if ctx.failures:
+            return
     # a preamble trial (Transition in the crossing) together with a WithinTrial factor that SMGen has to fill in
     # itself (crossed, or the argument of the crossed Transition): more sequences per call, the preamble row is random
     col, siz = O._sf(0, ["r", "g"]), O._sf(1, ["big", "small"])
@@ -754,9 +778,15 @@ def _c29_judge(ctx, case, r):
         known = None
         ks = {c["k"] for c in D.all_constraints(case.desc["block"])}
         structure = case.desc["block"]["k"] != "cross"
-        if ks & {"ExactlyKInARow", "Sequential", "MinimumTrials"} or structure:
-            known = "F6"
         fsm = OD._fmap(case.desc)
+        if ks & {"ExactlyKInARow", "Sequential"} or structure:
+            known = "F6"
+        elif "MinimumTrials" in ks:
+            # SMGen realises MinimumTrials by multiplying the levels of the first basic factor of the design; that is
+            # the documented behaviour exactly when this factor is in the crossing - elsewhere the finding F6 applies
+            basic = [i for i in case.desc["block"]["design"] if fsm[i]["window"] is None]
+            if not basic or basic[0] not in case.desc["block"].get("crossing", []):
+                known = "F6"
         want_refuse = None
         if case.desc["block"]["k"] in ("cross", "multicross") and r[0] in ("exc", "ok"):
             ncross = 1 if case.desc["block"]["k"] == "cross" else len(case.desc["block"]["crossings"])
@@ -1005,6 +1035,20 @@ def oracle_c18_blocks(ctx, budget_s):
             order = [exprs[0], exprs[3]]          # the MinimumTrials object of the nested block reused by a new CrossBlock
         elif it == 4:
             order = [exprs[3], exprs[0], exprs[4]]
+        elif it in (5, 6, 7):
+            # one outer block nested / merged twice, with partner blocks whose crossing weights differ
+            # (MinimumTrials doubles the inner crossing in one of them)
+            o = O._sf(0, ["o1", "o2"])
+            i1, j1 = O._sf(10, ["i1", "i2"]), O._sf(12, ["j1", "j2"])
+            factors = [o, i1, j1]
+            outer = {"k": "cross", "design": [0], "crossing": [0], "rcc": True, "cs": [], "obj": "outer"}
+            in_w = {"k": "cross", "design": [10], "crossing": [10], "rcc": True, "cs": [{"k": "MinimumTrials", "n": 4}], "obj": "inw"}
+            in_p = {"k": "cross", "design": [12], "crossing": [12], "rcc": True, "cs": [], "obj": "inp"}
+            ocs = []
+            a = {"k": "nest", "outer": outer, "inner": in_w, "cs": [], "align": None}
+            b = {"k": "nest", "outer": outer, "inner": in_p, "cs": [], "align": None}
+            order = {5: [a, b], 6: [b, a], 7: [a, {"k": "merge", "bs": [outer, in_p], "cs": [], "mode": "repeat", "align": None}]}[it]
+            ctx.count("C18.block-histories.weights")
         built = D.Built()
         desc0 = {"factors": factors}
         for f in factors:
@@ -1140,6 +1184,38 @@ def oracle_c19(ctx, budget_s):
                      "same columns as the first and Spec-valid discrete sequences")
     g = D.Gen(rng, max_trials=5)
     t_end = ctx.elapsed() + budget_s
+    # SMGen keeps its working state in module globals: repeated SMGen calls on one block object (with other strategies
+    # in between), in one child process; every result must be as valid as the first
+    col, wrd = O._sf(0, ["r", "g"]), O._sf(1, ["r", "g"])
+    eq = [0] * 9
+    eq[4] = eq[8] = 1
+    for ws, crossing in (([2, 1], [0, 2]), ([1, 1], [0, 2]), ([1, 2], [1, 2]), ([1, 1], [0, 1])):
+        con = {"id": 2, "name": "f2", "window": {"deps": [0, 1], "width": 1, "stride": 1, "start": None, "kind": "within"},
+               "levels": [{"name": "con", "w": ws[0], "table": eq}, {"name": "inc", "w": ws[1], "table": [1 - x for x in eq]}]}
+        dsc = {"factors": [col, wrd, con], "block": {"k": "cross", "design": [0, 1, 2], "crossing": crossing, "rcc": True, "cs": []}}
+        case = O.Case(ctx, dsc)
+        if not case.build():
+            continue
+        case.regs = OD.regions(dsc, case.geo)
+        strategies = ["SMGen", "IterateSATGen", "SMGen", "RandomGen", "SMGen"]
+        res = O.synth_sequence([{"desc": dsc, "n": 2, "strategy": st, "key": "b"} for st in strategies], timeout=120)
+        ctx.count("C19.smgen-histories")
+        if res is None:
+            continue
+        verdicts = []
+        for st, r in zip(strategies, res):
+            if r[0] == "ok":
+                seqs = exps_to_seqs(ctx, case, r[1], st)
+                bad = [v for v in O.lean_valid(ctx, dsc, seqs) if v]
+                verdicts.append((st, "invalid:" + ",".join(bad[0]) if bad else "valid"))
+            else:
+                verdicts.append((st, "exception:" + r[1]))
+        sm = [v for st, v in verdicts if st == "SMGen"]
+        ctx.case(("C19", "smgen", json.dumps(dsc, sort_keys=True)), True)
+        if sm and sm[0] == "valid" and any(v != "valid" for v in sm[1:]):
+            report(ctx, "history", case, "repeated SMGen calls on one block: the first call returned valid sequences, later calls "
+                   "did not: %s" % verdicts, {"history": strategies})
+            return
     ops = ["synth-sat", "synth-random", "synth-cms", "print", "tabulate", "csv", "tuples", "dicts", "mismatch"]
     with _Tmp() as tmp:
         while ctx.elapsed() < t_end:
@@ -1288,7 +1364,7 @@ def oracle_c22(ctx, budget_s):
             continue
         n = blk.trials_per_sample()
         ctx.count("C22.designs")
-        st = win.start
+        st = start if start is not None else width - 1       # the documented default, not what the object reports
         for ei, e in enumerate(exps):
             bad = None
             for k in ("c1", "c2", "c3", "c4"):
